@@ -54,7 +54,7 @@ PARTIAL = [
     "without such tuples, and opt_spec_fails",
     "trees of Mod::Module only are exercised by the correspondence (Expression/Interactive/FunctionType roots are covered "
     "by the theorems, not by generated inputs); feature all-nodes-with-ranges is covered by the theorems through "
-    "rangeMode 2 and by the `*-allranges` streams on programs without function parameters",
+    "rangeMode 2 and, in the thorough tier, by the `allranges-*` streams (harness built with that feature)",
 ]
 READY = True
 TECHNIQUE = ("Lean 4 schema-generic theorems by induction over a generic tree + `decide` on fold/visit programs regenerated "
@@ -313,13 +313,18 @@ def decode_words(ws):
 
 
 def req_tree(req):
-    ws = req.split(" ")
-    key = (ws[0].partition(":")[2], ws[1])
+    """decoded tree of a request (small cache keyed by the tree text itself: the same source has different trees
+    in different parse modes / feature builds)"""
+    skip = 3 if req.startswith("visit") else 2
+    pos = 0
+    for _ in range(skip):
+        pos = req.index(" ", pos) + 1
+    key = req[pos:]
     c = _state.setdefault("tree_cache", {})
     if key not in c:
-        if len(c) > 64:
+        if len(c) > 32:
             c.clear()
-        c[key] = decode_words(ws[3:] if ws[0].startswith("visit") else ws[2:])
+        c[key] = decode_words(key.split(" "))
     return c[key]
 
 
